@@ -521,7 +521,7 @@ func main() {
 					}
 					content = jb
 				}
-			} else if strings.Contains(r.log, "harness") && !strings.Contains(r.log, "property "+*property+" violated") {
+			} else if strings.Contains(r.log, "harness:") && !strings.Contains(r.log, "property "+*property+" violated") {
 				inconclusive++
 				lines = append(lines, fmt.Sprintf("INCONCLUSIVE: %s shard %d: harness error (exit %d); log %s", r.check.Test, r.shard, r.exit, filepath.Join(workDir, fmt.Sprintf("%s.%d.log", r.check.Test, r.shard))))
 				continue
